@@ -351,11 +351,11 @@ pub fn run(g: &mut Global) {
         "RSI is excluded (fixed 0.1 seed), as the property states".into(),
         "arbitrary-factor relations for dimensionless outputs are checked only where every comparison the implementation makes (flat-window test, consecutive closes for OBV, consecutive typical prices for MFI) is exactly equal or separated by >= 1e-9 relative".into(),
     ];
-    g.random("random", g.tier.pick(60000, 300000), &|| strategy(None), &check);
+    g.random("random", g.tier.pick(60000, 3000000), &|| strategy(None), &check);
     if g.tier == Tier::Thorough {
         // every k in -40..=40 visited
         for k in -40i32..=40 {
-            g.random(&format!("pow2_k{}", k), 320, &move || strategy(Some(k)), &check);
+            g.random(&format!("pow2_k{}", k), 3200, &move || strategy(Some(k)), &check);
         }
     }
 }
